@@ -520,3 +520,55 @@ func verifHarness_C12_ping_between_fragments() {
 	verifAssertD(!rcv.fake.closed, "receiver-stays-open", "ping-between-fragments")
 	verifAssert(false, "witness")
 }
+
+// ---- two messages on one connection (per-message state — opcode, assembled
+// buffer, compression flag — must be reset in between): text then binary, or
+// compressed then uncompressed, fragmented or not, one cut anywhere.
+func verifHarness_C12_two_messages_in_order() {
+	verifBound("payload_len_max", 4)
+	clientSends := verifChoose("sender_is_client", 2) == 1
+	compressed := verifChoose("compression_negotiated", 2) == 1
+	snd := verifNewEndpoint(clientSends, compressed, 0, nil)
+	rcv := verifNewEndpoint(!clientSends, compressed, 0, nil)
+	snd.eng.MaxWebsocketFramePayloadSize = []int{1 << 15, 2}[verifChoose("frame_limit", 2)]
+	if compressed {
+		snd.u.WebsocketCompressor = func(c *Conn, w io.WriteCloser, level int) io.WriteCloser {
+			return &verifStubCompressor{w: w}
+		}
+		rcv.u.WebsocketDecompressor = func(c *Conn, r io.Reader) io.ReadCloser {
+			return &verifStubDecompressor{r: r}
+		}
+	}
+	n1, n2 := verifChoose("len1", 5), verifChoose("len2", 5)
+	p1, p2 := verifBytes("p1", n1), verifBytes("p2", n2)
+	for _, b := range p1 {
+		verifAssume(b < 0x80) // the first message is text
+	}
+	o1, o2 := append([]byte(nil), p1...), append([]byte(nil), p2...)
+	// the first message is compressed when compression is negotiated, the second never is
+	snd.c.enableWriteCompression = compressed
+	if snd.c.WriteMessage(TextMessage, p1) != nil {
+		verifFail("write-succeeds", "first")
+		return
+	}
+	snd.c.enableWriteCompression = false
+	if snd.c.WriteMessage(BinaryMessage, p2) != nil {
+		verifFail("write-succeeds", "second")
+		return
+	}
+	wire := snd.fake.wire()
+	cut := verifConc(verifInt("cut", 1, len(wire)))
+	perr := rcv.c.Parse(append([]byte(nil), wire[:cut]...))
+	if perr == nil && cut < len(wire) {
+		perr = rcv.c.Parse(append([]byte(nil), wire[cut:]...))
+	}
+	verifAssertD(perr == nil, "receiver-accepts", "two-messages")
+	verifAssertD(len(rcv.msgs) == 2, "delivered-exactly-once", "two-messages")
+	if len(rcv.msgs) == 2 {
+		verifReach("both-delivered")
+		verifAssertD(rcv.msgs[0].typ == TextMessage && rcv.msgs[1].typ == BinaryMessage, "same-type", "two-messages-in-order")
+		verifAssertD(len(rcv.msgs[0].data) == n1 && verifEqBytes(rcv.msgs[0].data, o1), "same-payload", "first-of-two")
+		verifAssertD(len(rcv.msgs[1].data) == n2 && verifEqBytes(rcv.msgs[1].data, o2), "same-payload", "second-of-two")
+	}
+	verifAssert(false, "witness")
+}
